@@ -124,7 +124,10 @@ func headerFramings() []framing {
 	}
 }
 func splitFramings() []framing {
-	return []framing{{"Line", channel.Line, "", "", '\n'}, {"Split(0)", channel.Split(0), "", "", 0}, {"Split(,)", channel.Split(','), "", "", ','}}
+	// the split byte is a byte, not a character: values >= 0x80 (alone they are not valid UTF-8) behave like any other
+	return []framing{{"Line", channel.Line, "", "", '\n'}, {"Split(0)", channel.Split(0), "", "", 0}, {"Split(,)", channel.Split(','), "", "", ','},
+		{"Split(0x1e)", channel.Split(0x1e), "", "", 0x1e}, {"Split(0x80)", channel.Split(0x80), "", "", 0x80},
+		{"Split(0xc3)", channel.Split(0xc3), "", "", 0xc3}, {"Split(0xff)", channel.Split(0xff), "", "", 0xff}}
 }
 
 // cutSets returns the fragmentations to try for a stream of n bytes.
@@ -314,6 +317,12 @@ func recordOfClass(cls string, sep byte, k int) []byte {
 		return []byte("a\x00b")
 	case "comma":
 		return []byte("a,b")
+	case "hasSep": // contains the framing's split byte: Send must refuse it (for header framings: an ordinary byte)
+		return []byte{'a', sep, 'b'}
+	case "utf8OfSep": // the UTF-8 encoding of the code point numbered like the split byte (differs from it for >= 0x80)
+		return append([]byte("x"), []byte(string(rune(sep)))...)
+	case "hibytes":
+		return []byte{0x7f, 0x80, 0xbf, 0xc2, 0xc3, 0xfe, 0xff, 0x1e, 'q'}
 	case "hdrlike":
 		return []byte("Content-Length: 3\r\n\r\nabc")
 	case "b4095":
@@ -596,7 +605,7 @@ func TestFrames(t *testing.T) {
 	}
 
 	if which == "C11" {
-		classes := []string{"empty", "one", "two", "cr", "lf", "nul", "comma", "hdrlike", "b4095", "b4096", "b4097", "b70000"}
+		classes := []string{"empty", "one", "two", "cr", "lf", "nul", "comma", "hasSep", "utf8OfSep", "hibytes", "hdrlike", "b4095", "b4096", "b4097", "b70000"}
 		if thorough {
 			classes = append(classes, "m1", "m5", "m16")
 		}
